@@ -192,6 +192,7 @@ def f_forall_in(ex, st, e, is_forall=True, with_idx=False):
     f = z3.And(pre + facts) if (pre + facts) else z3.BoolVal(True)
     rng = z3.And(0 <= k, k < Len(sq))
     _side(ex, st, [k], z3.Implies(rng, f), [At(sq, k)])
+    # membership of the element is an antecedent only (as a side fact it would chain with the witness axiom)
     if is_forall:
         return _b(smt.forall([k], z3.Implies(z3.And(rng, f), body), patterns=[At(sq, k)]))
     return _b(smt.exists([k], z3.And(rng, body), [At(sq, k)]))
@@ -364,6 +365,8 @@ def f_as_list(ex, st, e):
     """as_list(v, 'Kind'): view the value v as a list whose elements have the element type of Kind"""
     v = ex.ev1(e.args[0], st)
     r = ex.as_ref(v, st, e) if v.k != "ref" else v
+    if e.args[1].value == "Any" and r.h is not None and r.h.kind == "list":
+        return r        # keep the more specific kind
     return SV("ref", r.t, Ty("list", name=e.args[1].value))
 
 
@@ -384,6 +387,14 @@ def f_was_alive(ex, st, e):
     s = State()
     s.heap, s.epoch = heap, epoch
     return _b(ex.heap_get(s, "$alive")[o.t])
+
+
+def f_alive_before_loop(ex, st, e):
+    """alive_before_loop(o): o was already allocated when the innermost enclosing loop was entered"""
+    o = ex.as_ref(ex.ev1(e.args[0], st), st, e)
+    if not ex.loop_alive:
+        raise Unsupported("alive_before_loop() outside a loop invariant", e)
+    return _b(ex.loop_alive[-1][o.t])
 
 
 def f_same(ex, st, e):
@@ -431,8 +442,8 @@ SPEC_FUNCS = {
     "is_int": _valpred(lambda v: Val.is_intv(v)), "is_intlike": _valpred(smt.isint), "is_real": _valpred(lambda v: Val.is_realv(v)),
     "is_number": _valpred(smt.is_number), "is_none": _valpred(lambda v: Val.is_none(v)),
     "is_false": _valpred(lambda v: v == Val.boolv(False)), "is_dec": _valpred(lambda v: z3.Or(Val.is_decv(v), Val.is_dpinf(v))),
-    "is_fin": _valpred(smt.isfin), "is_pinf": _valpred(lambda v: Val.is_pinf(v)),
+    "is_fin": _valpred(smt.isfin), "is_time": _valpred(lambda v: z3.Or(Val.is_intv(v), Val.is_realv(v), Val.is_pinf(v), Val.is_decv(v), Val.is_dpinf(v))), "is_pinf": _valpred(lambda v: Val.is_pinf(v)),
     "is_ref": _valpred(lambda v: Val.is_ref(v)), "is_str": _valpred(lambda v: Val.is_strv(v)),
-    "cls_is": f_cls_is, "is_obj": f_is_obj, "is_list": f_is_list, "as_obj": f_as_obj, "as_list": f_as_list, "alive": f_alive, "was_alive": f_was_alive, "same": f_same, "has": f_has,
+    "cls_is": f_cls_is, "is_obj": f_is_obj, "is_list": f_is_list, "as_obj": f_as_obj, "as_list": f_as_list, "alive": f_alive, "was_alive": f_was_alive, "alive_before_loop": f_alive_before_loop, "same": f_same, "has": f_has,
     "owner": f_owner, "ref_eq": f_ref_eq, "real": f_realv,
 }
